@@ -69,3 +69,16 @@ Example C10_description_instance :
   /\ parse_fields (s " ::notify is emitted (always)") = Some ([], s "::notify is emitted (always)", false)
   /\ parse_fields (s "(transfer full) (nullable): : the value") = Some ([(s "transfer", AList [s "full"]); (s "nullable", AList [])], s " : the value", false).
 Proof. vm_compute. repeat split; reflexivity. Qed.
+
+(* key=value options (array, attributes): every key comes back with its value, in order, for every
+   list of distinct keys — a value may itself contain '=' *)
+Theorem C10_dict_options : forall kvs,
+  Forall (fun kv => kv_ok kv = true) kvs -> NoDup (map fst kvs) -> kvs <> [] ->
+  parse_options_dict (Some (join_sp (map render_kv kvs))) = kvs.
+Proof. exact options_dict_roundtrip. Qed.
+Print Assumptions C10_dict_options.
+
+Example C10_dict_instance :
+  parse_options_dict (Some (s "length=n fixed-size=3 zero-terminated org.example.filter=name=foo"))
+  = [(s "length", Some (s "n")); (s "fixed-size", Some (s "3")); (s "zero-terminated", None); (s "org.example.filter", Some (s "name=foo"))].
+Proof. vm_compute. reflexivity. Qed.
